@@ -2,7 +2,7 @@
    subsystem), theorems only.  Model: C06/Model.v ([step true] = the code with fixes/F06.patch,
    [step false] = the original code).  Each theorem is closed by a lemma of Proofs / Order / Limits /
    InOrder / Exact / Refute and followed by Print Assumptions. *)
-From CF Require Import Common.Bytes C06.Model C06.Proofs C06.Order C06.Limits C06.InOrder C06.Exact C06.Refute C06.DeckModel C06.DeckProofs C06.DeckRefute C06.InfoModel C06.InfoProofs C06.InfoEnum C06.InfoRefute.
+From CF Require Import Common.Bytes C06.Model C06.Proofs C06.Order C06.Limits C06.InOrder C06.Exact C06.Refute C06.DeckModel C06.DeckProofs C06.DeckRefute C06.InfoModel C06.InfoProofs C06.InfoEnum C06.InfoRefute C06.Wrapper.
 Open Scope Z_scope.
 
 (* ---------------------------------------------------------------- protocol limits *)
@@ -298,3 +298,47 @@ Definition C06_refresh_answered_full : Prop := refresh_answered_when_device_answ
 Theorem C06_refused_1wire_read_observation : ~ C06_refresh_answered_full.
 Proof. exact refused_1wire_read_observation. Qed.
 Print Assumptions C06_refused_1wire_read_observation.
+
+(* ---------------------------------------------------------------- the element layer: completion bookkeeping *)
+(* The memory element classes wrap Memory.read / write with one callback slot per kind of request (C06/Wrapper.v).
+   The contract of that wrapper: in every history of requests and completed transfers, taken requests and callbacks
+   alternate — exactly one callback per taken request, with the data of its transfer — ... *)
+Theorem C06_wrapper_contract : forall data (evs : list (wev data)),
+  exists p, bracket data None (snd (wrun data (fun _ => false) None evs)) = Some p.
+Proof. exact wrapper_contract. Qed.
+Print Assumptions C06_wrapper_contract.
+
+(* ... and whatever the data a completion calls the callback and frees the slot: the next request is taken. *)
+Theorem C06_wrapper_completion_whatever_the_data : forall data (t t' : Z) (d : data),
+  wrun data (fun _ => false) (Some t) [WDone d; WReq t'] = (Some t', [WCall t d; WIssue t']).
+Proof. exact wrapper_completion_whatever_the_data. Qed.
+Print Assumptions C06_wrapper_completion_whatever_the_data.
+
+(* A completion skipped on a data-dependent branch: the request is never answered, every later request is dropped. *)
+Theorem C06_wrapper_skip_refuted : forall data (skip : data -> bool) (d0 : data) (later : list Z),
+  skip d0 = true ->
+  wrun data skip None (WReq 0 :: WDone d0 :: map WReq later) = (Some 0, WIssue 0 :: map WDropped later).
+Proof. exact wrapper_skip_refuted. Qed.
+Print Assumptions C06_wrapper_skip_refuted.
+
+(* MemoryTester.new_data as repaired by fixes/F06j.patch (tied to the code on every run): for every start address and
+   every data, the empty one too, a pending read is answered by exactly one callback, which sees the verdict on all the
+   bytes, and the slot is free afterwards. *)
+Theorem C06_tester_completion : forall start data valid,
+  tester_new_data TFixed start data true valid = (false, valid && all_match start data, [valid && all_match start data]).
+Proof. exact tester_fixed_contract. Qed.
+Print Assumptions C06_tester_completion.
+
+(* Before the repair (finding F06j): a zero-length read is never answered and the callback sees the verdict on the
+   first byte only; with a `break` at the first mismatch a read whose first byte is wrong is never answered. *)
+Theorem C06_tester_in_loop_refuted :
+  tester_new_data TInLoop 7 [] true true = (true, true, []) /\
+  tester_new_data TInLoop 7 [7; 8; 0] true true = (false, false, [true]).
+Proof. exact tester_in_loop_refuted. Qed.
+Print Assumptions C06_tester_in_loop_refuted.
+
+Theorem C06_tester_break_refuted :
+  tester_new_data TBreak 7 [0; 8; 9] true true = (true, false, []) /\
+  tester_new_data TBreak 7 [7; 8; 0] true true = (false, false, [true]).
+Proof. exact tester_break_refuted. Qed.
+Print Assumptions C06_tester_break_refuted.
